@@ -185,7 +185,7 @@ SUITES = {
         repo_suite("c02-ent", "ent", "c02", "p_C02", {"n": 15, "shards": 6}, {"n": 120, "shards": 16}),
         probe_suite("c02-heap-probe", {"n": 12, "shards": 8}, {"n": 100, "shards": 16}),
     ]},
-    "C10": {"suites": [
+    "C10": {"gen_obligations": ["src:inmem-lock-discipline", "src:ent-guarded-update"], "suites": [
         lin_suite("c10-inmem", "inmem", {"n": 60, "shards": 8}, {"n": 600, "shards": 16}),
         lin_suite("c10-ent", "ent", {"n": 40, "shards": 6}, {"n": 400, "shards": 16}),
     ], "rule": "2..4 goroutines x 2..4 operations (cancel / dispatch / update / mark-as-done / get / next / find / add) mostly on one shared task with tying keys, after a sequential setup and followed by a sequential read-back (Find(all), GetNext/Cancel drain); call and return are stamped with one atomic counter; the Coq checker searches a linearization under Repo.step; distinct = distinct recorded history"},
@@ -211,7 +211,7 @@ SUITES = {
     "C03": {"suites": [sys_suite("c03-sys", "c03_ok", {"n": 25, "shards": 10}, {"n": 200, "shards": 16}),
                        sys_suite("c03-sys-faults", "c03_ok", {"n": 25, "shards": 4}, {"n": 150, "shards": 16}, extra=["--faults"]),
                        vsys_suite("c03-vsys", "vc03_ok", {"n": 25, "shards": 4}, {"n": 200, "shards": 16})]},
-    "C04": {"suites": [sys_suite("c04-sys", "c04_ok", {"n": 25, "shards": 8}, {"n": 200, "shards": 16}),
+    "C04": {"gen_obligations": ["src:ent-guarded-update"], "suites": [sys_suite("c04-sys", "c04_ok", {"n": 25, "shards": 8}, {"n": 200, "shards": 16}),
                        sys_suite("c04-sys-faults", "c04_ok", {"n": 25, "shards": 6}, {"n": 150, "shards": 16}, extra=["--faults"]),
                        vsys_suite("c04-vsys", "vc04_ok", {"n": 25, "shards": 2}, {"n": 200, "shards": 16})]},
     "C05": {"suites": [sys_suite("c05-sys", "c05_ok", {"n": 25, "shards": 8}, {"n": 200, "shards": 16}),
